@@ -8,6 +8,8 @@ From Coq Require Import Reals Qreals.
 From Flocq Require Import Core IEEE754.Binary.
 From Coq Require Import ZArith QArith List Bool Permutation Sorted.
 Require Acme.C17.FloatBound.
+Require Acme.C17.FloatExec.
+Require Acme.C17.FloatExecProofs.
 From Acme.C17 Require Import Model Proofs.
 Import ListNotations.
 Open Scope Q_scope.
@@ -246,3 +248,14 @@ Theorem pct_float_close : forall b def m,
       (2 * INR (length (bus_msgs b) + 5) * Acme.C17.FloatBound.u <= INR (length (bus_msgs b)) * bpow radix2 (-50))%R).
 Proof. exact Acme.C17.FloatBound.pct_float_close_lemma. Qed.
 Print Assumptions pct_float_close.
+
+(* the executable wrappers extracted for the bit-exact correspondence check (coq/C17/FloatExec.v ->
+   coq/extracted/c17_float.ml) are, for the identity visiting order, the float model the theorems
+   above speak about *)
+Theorem float_exec_is_float_model : forall b def m,
+  Acme.C17.FloatExec.rate_x (b_typ b) def m = Acme.C17.FloatBound.rate_float b def m
+  /\ Acme.C17.FloatExec.total_order (b_typ b) def (bus_msgs b) = Acme.C17.FloatBound.total_float b def
+  /\ Acme.C17.FloatExec.load_order (b_typ b) (b_baud b) def (bus_msgs b) = Acme.C17.FloatBound.load_float b def
+  /\ Acme.C17.FloatExec.pct_order (b_typ b) def (bus_msgs b) m = Acme.C17.FloatBound.pct_float b def m.
+Proof. exact Acme.C17.FloatExecProofs.exec_is_float_model. Qed.
+Print Assumptions float_exec_is_float_model.
